@@ -111,8 +111,10 @@ func (sc *RangeScanner) Scan() bool {
 
 		// We rely here on the fact that \r\n is considered a grapheme cluster
 		// and so we don't need to worry about miscounting additional lines
-		// on files with Windows-style line endings.
-		if len(gr) != 0 && (gr[0] == '\r' || gr[0] == '\n') {
+		// on files with Windows-style line endings. A carriage return that
+		// is not followed by a line feed is not a newline sequence (the
+		// scanners in hclsyntax and json count it as an ordinary character).
+		if len(gr) != 0 && gr[len(gr)-1] == '\n' {
 			new.Column = 1
 			new.Line++
 		}
